@@ -65,15 +65,15 @@ def run(res):
     vecs = ['va', 'vb']
     instances = [
         # one 2D transform, the full rotation alphabet, listeners added and removed, every constructor shape
-        ('c20_2d', ['p'], [], consts(['p'], [], vecs, True), dict(init_stride=6, walks=1500)),
+        ('c20_2d', ['p'], [], consts(['p'], [], vecs, True), dict(init_stride=9, walks=1500)),
         # one 3D transform (rotation is a vector, stored as given)
         ('c20_3d', [], ['q'], consts([], ['q'], vecs, True, rot='Rot_Few'), dict(init_stride=3, walks=800)),
         # two transforms with different, overlapping listener sets: cross-talk between instances and between
         # events, values (defaults included) of one instance while the other one is assigned
         ('c20_2d3d', ['p'], ['q'], consts(['p'], ['q'], ['va'], False, rot='Rot_Few', subs='Subs_Two',
-                                          ctor='Ctor_Shapes', reg='Reg_Cross'), dict(walks=1000)),
+                                          ctor='Ctor_Shapes', reg='Reg_Cross'), dict(init_stride=2, walks=1000)),
         ('c20_2d2d', ['p', 'q'], [], consts(['p', 'q'], [], ['va'], False, rot='Rot_Few', subs='Subs_Two',
-                                            ctor='Ctor_Shapes', reg='Reg_Cross'), dict(walks=1000)),
+                                            ctor='Ctor_Shapes', reg='Reg_Cross'), dict(init_stride=3, walks=1000)),
         # a listener re-assigns the property it is told about (re-entrant setter): order of store and notify,
         # final value, complete delivery sequences for both iteration orders
         ('c20_clamp2d', ['p'], [], consts(['p'], [], vecs, False, rot='Rot_Few', subs='Subs_Both', ctor='Ctor_None',
